@@ -26,7 +26,8 @@ import hashlib
 import itertools
 import json
 
-STREAMS = ['corpus-and-exemplars', 'interleavings-exhaustive', 'bodies-reencode', 'histories-random']
+STREAMS = ['corpus-and-exemplars', 'interleavings-exhaustive', 'foreign-messages', 'bodies-reencode',
+           'histories-random']
 THEOREMS = ['unique_names_fresh', 'unique_names_never_reused', 'unicast_exact', 'owner_unique',
             'sender_is_true', 'order_preserved', 'bus_calls_answered_not_forwarded',
             'broadcast_exact', 'rules_held_by_connected_clients',
@@ -183,6 +184,20 @@ class Net:
             return real_bcast(member, signature, body, *a, **kw)
         self.bus.sendSignal = sendSignal
         self.bus.broadcastSignal = broadcastSignal
+        # what the object dispatch did with a call to the bus is OBSERVED, not predicted: was a method executed
+        # (executeMethod), was a rule registered (router.addMatch, with which constraints)
+        self.observed = []
+        real_exec, real_add = self.bus.executeMethod, self.bus.router.addMatch
+
+        def executeMethod(*a, **kw):
+            self.observed.append(('exec',))
+            return real_exec(*a, **kw)
+
+        def addMatch(callback, **kw):
+            self.observed.append(('addmatch', dict((k, v) for k, v in kw.items() if v)))
+            return real_add(callback, **kw)
+        self.bus.executeMethod = executeMethod
+        self.bus.router.addMatch = addMatch
 
     def index_of(self, p):
         for k, c in enumerate(self.clients):
@@ -252,6 +267,7 @@ class Net:
         self._w0 = len(self.wlog)
         self._dis0 = self.clients[i]['t'].lose_calls
         self.effects = []
+        self.observed = []
 
     def end(self):
         st = self.cur
@@ -270,6 +286,13 @@ class Net:
             if st.heads.get(n) != j:
                 eff.append('own %s %d' % (n, j))
         st.effects = eff + self.effects
+        added = [o[1] for o in self.observed if o[0] == 'addmatch']
+        if added:
+            st.op = ('addmatch', added[-1])
+        elif any(o[0] == 'exec' for o in self.observed):
+            st.op = ('exec',)
+        else:
+            st.op = ('always',)
         self.steps.append(st)
 
     def feed(self, i, raws):
@@ -284,6 +307,16 @@ class Net:
             return
         if c['t'].disconnecting:
             self.disconnect(i)
+
+    def feed_bytes(self, i, data):
+        """A read that need not end on a message boundary (no reactor follow-up)."""
+        c = self.clients[i]
+        if not c['alive'] or self.aborted:
+            return
+        try:
+            c['p'].dataReceived(data)
+        except Exception as e:
+            self.aborted = '%s: %s' % (type(e).__name__, str(e)[:200])
 
     def disconnect(self, i):
         from twisted.python.failure import Failure
@@ -302,54 +335,137 @@ class Net:
         c['alive'] = False
 
 
-def header_field_types(raw):
-    """[(field code, signature of its variant)] of the header-field array, the sender field (7) left out:
-    what a peer that validates header field types looks at."""
+KNOWN_CODES = (1, 2, 3, 4, 5, 6, 7, 8, 9)
+
+
+def header_fields(raw):
+    """{field code: (signature of its variant, value)} of the header-field array (a later duplicate wins, as in
+    parseMessage): what a peer that validates header fields looks at."""
     import struct
     from txdbus import marshal
     lend = raw[:1] == b'l'
     end = 16 + struct.unpack(('<' if lend else '>') + 'I', raw[12:16])[0]
-    off, out = 16, []
+    off, out = 16, {}
     while off < end:
         off = (off + 7) // 8 * 8
         code, slen = raw[off], raw[off + 1]
         sig = raw[off + 2:off + 2 + slen].decode('ascii', 'replace')
         off += 2 + slen + 1
-        n, _ = marshal.unmarshal(sig, raw, off, lend, [])
+        n, v = marshal.unmarshal(sig, raw, off, lend, [])
         off += n
-        if code != 7:
-            out.append('%d:%s' % (code, sig))
+        out[code] = (sig, v[0] if v else None)
     return out
 
 
 def parse(message, raw, sent=False):
     m = message.parseMessage(raw, [])
+    hf = header_fields(raw)
+    extra = ','.join('%d:%s=%s' % (c, hf[c][0], str(hf[c][1]).encode().hex()) for c in sorted(hf)
+                     if c not in KNOWN_CODES)
     d = {
         't': m._messageType, 'serial': m.serial,
-        'flags': (0 if m.expectReply else 1) + (0 if m.autoStart else 2),
+        'flags': raw[2], 'version': raw[3],
         'path': getattr(m, 'path', None), 'iface': getattr(m, 'interface', None),
         'member': getattr(m, 'member', None), 'err': getattr(m, 'error_name', None),
         'rs': getattr(m, 'reply_serial', None), 'dest': m.destination, 'sender': m.sender,
         'sig': m.signature, 'body': repr(m.body) if m.signature else None,
-        'endian': raw[0], 'rawbody': bytes(m.rawBody).hex(), 'hfields': header_field_types(raw),
+        'endian': raw[0], 'rawbody': bytes(m.rawBody).hex(),
+        # field code -> type of its variant, the sender field (7) left out; a mapping: order is not content
+        'hfields': dict((str(c), hf[c][0]) for c in hf if c != 7),
+        'hvalues': dict((str(c), repr(hf[c][1])) for c in hf if c != 7),
+        'extra': extra or None,
     }
-    if m.sender is None and not sent:
+    if (m.sender is None or m.sender == BUS) and not sent:
         d['btok'] = body_token(m.signature, m.body)         # built by the bus
     else:
         d['btok'] = raw_token(raw[0], m.signature, m.rawBody)
     return d
 
 
+def from_bus(d):
+    """A delivered message that the bus built itself: txdbus's bus leaves the sender empty, a reference bus writes
+    org.freedesktop.DBus; a client's message can carry neither (the bus stamps the unique name)."""
+    return d['sender'] is None or d['sender'] == BUS
+
+
+# --------------------------------------------------------------------------- a foreign client's serializer
+def ref_serialize(endian, mtype, flags, serial, fields, body=b'', version=1):
+    """A DBus message written without txdbus's `_marshal`: any flags byte, any header fields (code, type, value) in any
+    order, either byte order.  Types of header values: u, s, o, g."""
+    import struct
+    e = '<' if endian == 'l' else '>'
+
+    def pad(n, a):
+        return b'\0' * ((-n) % a)
+    arr = b''
+    for code, sig, v in fields:
+        arr += pad(16 + len(arr), 8)
+        arr += bytes([code, len(sig)]) + sig.encode() + b'\0'
+        if sig == 'u':
+            arr += pad(16 + len(arr), 4) + struct.pack(e + 'I', v)
+        elif sig in ('s', 'o'):
+            b = v.encode('utf-8')
+            arr += pad(16 + len(arr), 4) + struct.pack(e + 'I', len(b)) + b + b'\0'
+        elif sig == 'g':
+            b = v.encode('ascii')
+            arr += bytes([len(b)]) + b + b'\0'
+        else:
+            raise ValueError(sig)
+    hdr = endian.encode() + bytes([mtype, flags, version]) + struct.pack(e + 'II', len(body), serial)
+    hdr += struct.pack(e + 'I', len(arr)) + arr
+    return hdr + pad(len(hdr), 8) + body
+
+
+FIELD_OF = {'path': (1, 'o'), 'iface': (2, 's'), 'member': (3, 's'), 'err': (4, 's'), 'rs': (5, 'u'),
+            'dest': (6, 's'), 'forged': (7, 's')}
+REQUIRED = {1: ['path', 'member'], 2: ['rs'], 3: ['err', 'rs'], 4: ['path', 'iface', 'member']}
+
+
+def build_foreign(B, md):
+    """md as for `build`, plus md['foreign'] = {'flags': whole flags byte, 'opt': [names of fields to add although the
+    type does not need them], 'x': [[code, type, value], ...] unknown fields, 'rev': reversed field order}."""
+    from txdbus import marshal
+    f = md['foreign']
+    t = md['t']
+    sig, body = md['sigbody'] if 'sigbody' in md else B[md.get('body', 'none')]
+    lend = not md.get('be')
+    bin_body = b''.join(marshal.marshal(sig, body, lendian=lend)[1]) if sig else b''
+    defaults = {'path': '/x', 'member': 'Foo', 'iface': IFACES[0], 'err': 'org.ex.Error', 'rs': 1}
+    names = list(REQUIRED[t])
+    if t == 1 and md.get('iface') is not None:
+        names.append('iface')
+    for n in ('dest', 'forged'):
+        if md.get(n) is not None and n not in names:
+            names.append(n)
+    for n in f.get('opt', []):
+        if n not in names:
+            names.append(n)
+    fields = []
+    for n in names:
+        code, ty = FIELD_OF[n]
+        v = md.get(n)
+        fields.append((code, ty, v if v is not None else defaults[n]))
+    if sig:
+        fields.append((8, 'g', sig))
+    for code, ty, v in f.get('x', []):
+        fields.append((code, ty, v))
+    if f.get('rev'):
+        fields.reverse()
+    return ref_serialize('l' if lend else 'B', t, f.get('flags', md.get('flags', 0)), md['serial'], fields, bin_body)
+
+
 # --------------------------------------------------------------------------- building messages
 def rule_text(rule):
     if isinstance(rule, str):
         return rule
-    return ','.join("%s='%s'" % (k, rule[k]) for k in ('type', 'interface', 'member', 'path', 'destination')
+    return ','.join("%s='%s'" % (k, rule[k]) for k in ('type', 'sender', 'interface', 'member', 'path', 'destination')
                     if k in rule)
 
 
 def build(message, B, md):
     """md: t, serial, flags, dest, forged, path, iface, member, err, rs, body(key) or sigbody=(sig, body)."""
+    if md.get('foreign'):
+        return build_foreign(B, md)
     t = md['t']
     sig, body = md['sigbody'] if 'sigbody' in md else B[md.get('body', 'none')]
     if t == 1:
@@ -393,8 +509,16 @@ def op_to_msgs(op, names):
         return [dict(t=1, serial=op[2], path=BUSPATH, iface=BUS, member='ReleaseName', dest=BUS,
                      sigbody=('s', [op[3]]), flags=op[4])]
     if k == 'match':
+        rule = op[3]
+        if isinstance(rule, dict):
+            rule = dict(rule)
+            for key in ('sender', 'destination'):
+                v = rule.get(key)
+                if isinstance(v, str) and v.startswith('@'):
+                    j = int(v[1:])
+                    rule[key] = names[j] if j < len(names) and names[j] else ':1.%d' % (90 + j)
         return [dict(t=1, serial=op[2], path=BUSPATH, iface=BUS, member='AddMatch', dest=BUS,
-                     sigbody=('s', [rule_text(op[3])]), flags=op[4])]
+                     sigbody=('s', [rule_text(rule)]), flags=op[4])]
     if k == 'bus':
         kind, arg, fl = op[3], op[4], op[5]
         d = dict(t=1, serial=op[2], path=BUSPATH, iface=BUS, member=kind, dest=BUS, flags=fl)
@@ -430,38 +554,6 @@ def resolve_at(md, names):
     return md
 
 
-def classify(net, sent, raw_md):
-    """The abstract object-dispatch outcome of a call addressed to the bus (see module docstring)."""
-    if sent['t'] != 1 or sent['dest'] != BUS:
-        return 'exec'
-    iface, member, path = sent['iface'], sent['member'], sent['path']
-    if iface == 'org.freedesktop.DBus.Peer' and member == 'Ping':
-        return 'always'
-    if iface == 'org.freedesktop.DBus.Introspectable' and member == 'Introspect':
-        return 'always'
-    if path != BUSPATH:
-        return 'always'
-    if iface == 'org.freedesktop.DBus.ObjectManager' and member == 'GetManagedObjects':
-        return 'always'
-    chosen = None
-    for x in net.bus.getInterfaces():
-        if iface:
-            if x.name == iface:
-                chosen = x
-                break
-        elif member in x.methods:
-            chosen = x
-            break
-    meth = chosen.methods.get(member) if chosen else None
-    if meth is None:
-        return 'always'
-    if (meth.sigIn or '') != (sent['sig'] or ''):
-        return 'always'
-    if member == 'AddMatch':
-        return 'addmatch'
-    return 'exec'
-
-
 def parse_rule(text):
     """Rule text -> dict, or None when dbus_AddMatch cannot parse it (no rule is registered then)."""
     out = {}
@@ -479,7 +571,6 @@ def parse_rule(text):
 # --------------------------------------------------------------------------- running a history
 def run_history(ops):
     """Apply the history to a fresh real bus.  Returns (net, lines) with one driver line per Step."""
-    import ast
     net = Net()
     B = bodies()
     for op in ops:
@@ -491,6 +582,20 @@ def run_history(ops):
         elif k == 'disc':
             if op[1] < len(net.clients):
                 net.disconnect(op[1])
+        elif k == 'split':
+            # ['split', i, op_i, cut, j, op_j]: the first `cut` bytes of i's message, then a whole read from j, then
+            # the rest of i's message: the bus sees j's message first, then i's
+            _, i, op_i, cut, j, op_j = op
+            if max(i, j) >= len(net.clients) or not (net.clients[i]['alive'] and net.clients[j]['alive']) or i == j:
+                continue
+            names = [c['p'].uniqueName for c in net.clients]
+            raw_i = b''.join(build(net.message, B, md) for md in op_to_msgs(op_i, names))
+            raw_j = [build(net.message, B, md) for md in op_to_msgs(op_j, names)]
+            cut = max(1, min(len(raw_i) - 1, cut))
+            net.feed_bytes(i, raw_i[:cut])
+            net.feed(j, raw_j)
+            if net.clients[i]['alive']:
+                net.feed(i, [raw_i[cut:]])
         else:
             i = op[1]
             if i >= len(net.clients) or not net.clients[i]['alive']:
@@ -507,33 +612,31 @@ def run_history(ops):
             lines.append('disc %d %d %s' % (st.i, len(st.effects), ' '.join(st.effects)))
         else:
             s = st.sent
-            cls = classify(net, s, None)
-            if cls == 'addmatch':
-                rule = parse_rule(ast.literal_eval(s['body'])[0]) if s['body'] else None
-                if rule is None:
-                    cls = 'exec'
-                else:
-                    st.op = ('addmatch', rule)
-                    opt = 'addmatch %s %s %s %s %s' % (tok(MTYPES.get(rule.get('type'))), tok(rule.get('interface')),
-                                                       tok(rule.get('member')), tok(rule.get('path')),
-                                                       tok(rule.get('destination')))
-            if cls == 'always':
-                st.op = ('always',)
+            if st.op[0] == 'addmatch':
+                kw = st.op[1]
+                unsupported = [k for k in kw if k not in ('mtype', 'sender', 'interface', 'member', 'path',
+                                                          'destination')]
+                if unsupported:
+                    raise RuntimeError('the harness generated a rule with keys the model has no twin for: %s'
+                                       % unsupported)
+                opt = 'addmatch %s %s %s %s %s %s' % (tok(MTYPES.get(kw.get('mtype'))), tok(kw.get('sender')),
+                                                      tok(kw.get('interface')), tok(kw.get('member')),
+                                                      tok(kw.get('path')), tok(kw.get('destination')))
+            elif st.op[0] == 'always':
                 opt = 'always'
-            elif cls == 'exec':
-                st.op = ('exec',)
+            else:
                 opt = 'exec %d %s' % (len(st.effects), ' '.join(st.effects))
-            lines.append('msg %d %d %d %d %s %s %s %s %s %s %s %s %s' % (
+            lines.append('msg %d %d %d %d %s %s %s %s %s %s %s %s %s %s' % (
                 st.i, s['t'], s['serial'], s['flags'], tok(s['path']), tok(s['iface']), tok(s['member']),
-                tok(s['err']), tok(s['rs']), tok(s['dest']), tok(s['sender']), s['btok'], opt))
+                tok(s['err']), tok(s['rs']), tok(s['dest']), tok(s['sender']), s['extra'] or '-', s['btok'], opt))
     return net, [ln.rstrip() for ln in lines]
 
 
 def show_payload(d):
-    if d['sender'] is not None:
-        return 'F %d %d %d %s %s %s %s %s %s %s %s' % (
+    if not from_bus(d):
+        return 'F %d %d %d %s %s %s %s %s %s %s %s %s' % (
             d['t'], d['serial'], d['flags'], tok(d['path']), tok(d['iface']), tok(d['member']), tok(d['err']),
-            tok(d['rs']), tok(d['dest']), tok(d['sender']), d['btok'])
+            tok(d['rs']), tok(d['dest']), tok(d['sender']), d['extra'] or '-', d['btok'])
     if d['t'] == 4:
         return 'S %s %s %s %s %s' % (tok(d['path']), tok(d['iface']), tok(d['member']), tok(d['dest']), d['btok'])
     if d['t'] == 2 and d['dest'] is None and d['sig'] == 's':
@@ -557,31 +660,101 @@ def impl_lines(net):
 
 
 # --------------------------------------------------------------------------- the oracle (reference router)
-def rule_matches_spec(rule, m):
-    """DBus match rule semantics for the keys this harness uses."""
+MTYPES = {'method_call': 1, 'method_return': 2, 'error': 3, 'signal': 4}
+
+
+def rule_matches_spec(rule, m, heads=None, names=None, ignore_sender=False):
+    """DBus match rule semantics for the keys this harness uses.  `m['sender']` is the TRUE unique name of the
+    originator; a `sender=` constraint naming a well-known name means its current owner (heads: name -> connection)."""
     if 'type' in rule:
         if MTYPES.get(rule['type']) != m['t']:
             return False
+    if 'sender' in rule and not ignore_sender:
+        v = rule['sender']
+        if v.startswith(':'):
+            if m['sender'] != v:
+                return False
+        elif v == BUS:
+            return False               # only messages built by the bus itself come from org.freedesktop.DBus
+        else:
+            owner = (heads or {}).get(v)
+            if owner is None or names is None or names[owner] != m['sender']:
+                return False
     for k, f in (('interface', 'iface'), ('member', 'member'), ('path', 'path'), ('destination', 'dest')):
         if k in rule and m[f] != rule[k]:
             return False
     return True
 
 
-CONTENT = ('t', 'serial', 'flags', 'path', 'iface', 'member', 'err', 'rs', 'dest', 'sig', 'body')
-WIRE = ('endian', 'rawbody')
-MTYPES = {'method_call': 1, 'method_return': 2, 'error': 3, 'signal': 4}
+def malformed_by_generator(m):
+    """The generator deliberately writes '' into the destination / sender field: not a valid bus name.  A bus may
+    refuse such a message (exception out of dataReceived = lost connection) or drop it: never judged."""
+    return m is not None and (m['dest'] == '' or m['sender'] == '')
+
+
+def is_addmatch_call(m):
+    return (m['t'] == 1 and m['dest'] == BUS and m['member'] == 'AddMatch' and m['path'] == BUSPATH
+            and m['iface'] in (None, BUS) and m['sig'] == 's')
+
+
+def is_hello_call(m):
+    return m['t'] == 1 and m['dest'] == BUS and m['member'] == 'Hello'
+
+
+def compare_forwarded(add, d, m):
+    """`d` (delivered) against `m` (sent): everything but the sender field.  Header fields as a mapping
+    code -> (type, value): their order is not content."""
+    if d['t'] != m['t'] or d['serial'] != m['serial']:
+        add('forwarded-content-changed', 'the bus changed type/serial of a forwarded message',
+            (d['t'], d['serial']), (m['t'], m['serial']))
+        return
+    if d['flags'] != m['flags']:
+        if (d['flags'] & 3) == (m['flags'] & 3):
+            add('forward-clears-flag-bits', 'a message sent with flags byte 0x%02x is forwarded with flags byte 0x%02x'
+                % (m['flags'], d['flags']), d['flags'], m['flags'])
+        else:
+            add('forwarded-content-changed', 'the bus changed the flags of a forwarded message', d['flags'], m['flags'])
+        return
+    sent_codes, got_codes = set(m['hfields']), set(d['hfields'])
+    if sent_codes - got_codes:
+        lost = sorted(sent_codes - got_codes, key=int)
+        add('forward-drops-unknown-header-fields', 'header field(s) %s (code:type %s) of a forwarded message are '
+            'missing at the destination' % (lost, ['%s:%s' % (c, m['hfields'][c]) for c in lost]),
+            d['hfields'], m['hfields'])
+        return
+    if got_codes - sent_codes:
+        add('forwarded-content-changed', 'the bus added header field(s) %s' % sorted(got_codes - sent_codes),
+            d['hfields'], m['hfields'])
+        return
+    if d['hfields'] != m['hfields']:
+        add('forwarded-header-field-retyped', 'the bus changed the wire type of a header field of a forwarded '
+            'message (code -> type %s, sent %s)' % (d['hfields'], m['hfields']), d['hfields'], m['hfields'])
+        return
+    if d['hvalues'] != m['hvalues']:
+        diff = sorted(c for c in m['hvalues'] if d['hvalues'][c] != m['hvalues'][c])
+        add('forwarded-content-changed', 'the bus changed the value of header field(s) %s' % diff,
+            dict((c, d['hvalues'][c]) for c in diff), dict((c, m['hvalues'][c]) for c in diff))
+        return
+    if d['body'] != m['body'] or d['sig'] != m['sig']:
+        add('forwarded-content-changed', 'the bus changed the body of a forwarded message', (d['sig'], d['body']),
+            (m['sig'], m['body']))
+        return
+    if d['endian'] != m['endian'] or d['rawbody'] != m['rawbody']:
+        add('forwarded-body-reencoded', 'the bus re-encoded the body of a forwarded message (the decoded values are '
+            'equal)', (d['endian'], d['rawbody']), (m['endian'], m['rawbody']))
 
 
 def oracle(net):
     """Judge the implementation's trace against the property statement.  Returns a list of
     (key, what, observed, expected)."""
+    import ast
     V = []
     nclients = len(net.clients)
     names = [None] * nclients          # allocated unique names, by connection
     ever = {}                          # name -> connection it was first given to
     held = [[] for _ in range(nclients)]
     dead_rules = [[] for _ in range(nclients)]
+    helloed = [False] * nclients
     alive = [False] * nclients
     recv = [[] for _ in range(nclients)]   # forwarded messages per receiver, in arrival order
     sent_order = {}                         # (i, dest) -> serials in send order
@@ -594,7 +767,10 @@ def oracle(net):
         if st.kind == 'connect':
             alive[i] = True
             continue
+        m = st.sent
         if st.exc:
+            if malformed_by_generator(m):
+                break                  # the bus refused an invalid name: a lost connection, nothing to judge
             low = st.exc
             if low.startswith('TypeError') and 'parseMessage' in low:
                 add('bus-parse-typeerror', 'the bus raised %s on a received message' % st.exc, st.exc, 'message processed')
@@ -602,7 +778,7 @@ def oracle(net):
                 add('bus-reencode-fails', 'the bus could not re-serialise a valid message: %s' % st.exc, st.exc,
                     'message forwarded unchanged')
             else:
-                add('bus-raises-on-message', 'the bus raised %s while handling an event' % st.exc, st.exc,
+                add('bus-raises-on-message', 'the bus raised %s while handling a well-formed event' % st.exc, st.exc,
                     'event handled')
             break
         # ---- names
@@ -619,17 +795,16 @@ def oracle(net):
                     ever[cur] = i
             elif cur != names[i]:
                 add('unique-name-changed', 'connection %d was %s and now is %s' % (i, names[i], cur))
-        fw = [(j, d) for j, d in st.deliv if d['sender'] is not None]
-        bo = [(j, d) for j, d in st.deliv if d['sender'] is None]
+        fw = [(j, d) for j, d in st.deliv if not from_bus(d)]
+        bo = [(j, d) for j, d in st.deliv if from_bus(d)]
         # ---- nobody who is gone receives anything
-        m = st.sent
         for j, d in st.deliv:
             if not alive[j] or (st.kind == 'disc' and j == i):
-                wk_dead_owner = (m is not None and d['sender'] is not None and m['dest'] and m['dest'][0] != ':'
+                wk_dead_owner = (m is not None and not from_bus(d) and m['dest'] and m['dest'][0] != ':'
                                  and st.heads.get(m['dest']) == j)
                 if wk_dead_owner:
                     continue           # C13's table names a dead owner: not judged here
-                if d['sender'] is None and d['t'] == 4 and d['dest'] is not None:
+                if from_bus(d) and d['t'] == 4 and d['dest'] is not None:
                     continue           # sendSignal(p, ...) by a name function to a dead queue member: C13's
                 if dead_rules[j] or (st.kind == 'disc' and j == i and held[j]):
                     add('rules-of-disconnected-client-keep-firing',
@@ -647,37 +822,30 @@ def oracle(net):
             continue
         # ---- a message from connection i
         true = names[i]
+        if malformed_by_generator(m):
+            continue                   # '' as a bus name: whether / where / how it is delivered is not judged
         for j, d in fw:
             if d['sender'] != true:
                 add('sender-not-true', 'a message from %s is delivered with sender %r (it wrote %r)'
                     % (true, d['sender'], m['sender']), d['sender'], true)
-            diff = [f for f in CONTENT if d[f] != m[f]]
-            if diff:
-                add('forwarded-content-changed', 'the bus changed %s of a forwarded message' % ','.join(diff),
-                    dict((f, d[f]) for f in diff), dict((f, m[f]) for f in diff))
-            elif d['hfields'] != m['hfields']:
-                add('forwarded-header-field-retyped', 'the bus changed the wire type of a header field of a forwarded '
-                    'message (field:type %s, sent %s)' % (d['hfields'], m['hfields']), d['hfields'], m['hfields'])
-            else:
-                wdiff = [f for f in WIRE if d[f] != m[f]]
-                if wdiff:
-                    add('forwarded-body-reencoded', 'the bus re-encoded the body of a forwarded message (%s differ; '
-                        'the decoded values are equal)' % ','.join(wdiff),
-                        dict((f, d[f]) for f in wdiff), dict((f, m[f]) for f in wdiff))
+            compare_forwarded(add, d, m)
             recv[j].append((true, d['dest'], d['serial']))
         dest = m['dest']
         mprime = dict(m)
         mprime['sender'] = true
+
+        def matches(r, **kw):
+            return rule_matches_spec(r, mprime, st.heads, names, **kw)
         receivers = [j for j, _ in fw]
         if dest == BUS:
-            if m['t'] == 1 and classify(net, m, None) == 'addmatch':
-                import ast
+            replies = [(j, d) for j, d in bo if d['t'] in (2, 3) and d['rs'] == m['serial']]
+            if is_addmatch_call(m):
                 r = parse_rule(ast.literal_eval(m['body'])[0])
-                if r is not None:
+                refused = any(j == i and d['t'] == 3 for j, d in replies)
+                if r is not None and not refused:
                     held[i].append(r)
             if fw:
-                holders = [j for j in receivers
-                           if any(rule_matches_spec(r, mprime) for r in held[j] + dead_rules[j])]
+                holders = [j for j in receivers if any(matches(r, ignore_sender=True) for r in held[j] + dead_rules[j])]
                 if len(holders) == len(receivers):
                     key = 'bus-call-routed-to-rule-holders'
                 elif m['t'] == 1:
@@ -688,9 +856,8 @@ def oracle(net):
                     % (m['t'], receivers, '; connection %s holds the NAME org.freedesktop.DBus' % st.heads[BUS]
                        if BUS in st.heads else ''), receivers, [])
             if m['t'] == 1:
-                reps = [(j, d) for j, d in bo if d['t'] in (2, 3) and d['rs'] == m['serial']]
-                mine = [1 for j, d in reps if j == i]
-                other = [j for j, d in reps if j != i]
+                mine = [d for j, d in replies if j == i]
+                other = [j for j, d in replies if j != i]
                 if other:
                     add('bus-reply-misdelivered', 'the reply to a call of connection %d went to %s' % (i, other), other, [i])
                 if not (m['flags'] & 1) and len(mine) != 1:
@@ -698,6 +865,14 @@ def oracle(net):
                         len(mine), 1)
                 if (m['flags'] & 1) and len(mine) > 1:
                     add('bus-call-not-answered-once', 'a no-reply call to the bus got %d replies' % len(mine), len(mine), '<= 1')
+                if is_hello_call(m) and not helloed[i]:
+                    helloed[i] = True
+                    # the first Hello is how a connection learns the name the bus gave it
+                    for d in mine:
+                        body = ast.literal_eval(d['body']) if d['body'] else None
+                        if d['t'] != 2 or body != [true]:
+                            add('hello-reply-wrong-name', 'the reply to the first Hello of connection %d (%s) is %s %r'
+                                % (i, true, 'a return with body' if d['t'] == 2 else 'an error', body), body, [true])
             sent_order.setdefault((true, dest), []).append(m['serial'])
         elif dest:
             # unicast: exactly once to the owner, to no other
@@ -714,7 +889,7 @@ def oracle(net):
                 if receivers != expected:
                     extra = [j for j in receivers if j != owner]
                     copies = receivers.count(owner) if owner is not None else 0
-                    if extra and all(any(rule_matches_spec(r, mprime) for r in held[j] + dead_rules[j])
+                    if extra and all(any(matches(r, ignore_sender=True) for r in held[j] + dead_rules[j])
                                      for j in extra):
                         add('unicast-also-routed-to-rule-holders',
                             'a unicast message for %s (connection %s) also reached connection(s) %s, which only '
@@ -724,7 +899,7 @@ def oracle(net):
                             % (dest, extra), receivers, expected)
                     elif copies > 1:
                         key = ('unicast-also-routed-to-rule-holders'
-                               if any(rule_matches_spec(r, mprime) for r in held[owner]) else 'unicast-delivered-twice')
+                               if any(matches(r, ignore_sender=True) for r in held[owner]) else 'unicast-delivered-twice')
                         add(key, 'a unicast message for %s reached its destination %d times (the destination holds a '
                             'matching rule)' % (dest, copies), receivers, expected)
                     elif copies == 0:
@@ -733,11 +908,17 @@ def oracle(net):
             sent_order.setdefault((true, dest), []).append(m['serial'])
         elif m['t'] == 4:
             # broadcast: exactly the connections holding a matching rule
-            exp = set(j for j in range(nclients) if alive[j] and any(rule_matches_spec(r, mprime) for r in held[j]))
+            exp = set(j for j in range(nclients) if alive[j] and any(matches(r) for r in held[j]))
+            lax = set(j for j in range(nclients) if alive[j] and any(matches(r, ignore_sender=True) for r in held[j]))
             got = set(j for j in receivers if alive[j])
             if got - exp:
-                add('broadcast-to-non-holder', 'a broadcast reached connection(s) %s holding no matching rule'
-                    % sorted(got - exp), sorted(got), sorted(exp))
+                if (got - exp) <= lax:
+                    rules = [r for j in sorted(got - exp) for r in held[j] if 'sender' in r]
+                    add('sender-constraint-ignored', 'a broadcast from %s reached connection(s) %s whose only matching '
+                        'rule(s) ask for another sender: %s' % (true, sorted(got - exp), rules), sorted(got), sorted(exp))
+                else:
+                    add('broadcast-to-non-holder', 'a broadcast reached connection(s) %s holding no matching rule'
+                        % sorted(got - exp), sorted(got), sorted(exp))
             if exp - got:
                 add('broadcast-missed-rule-holder', 'a broadcast did not reach connection(s) %s holding a matching rule'
                     % sorted(exp - got), sorted(got), sorted(exp))
@@ -786,6 +967,32 @@ def judge(ctx, stream, ops, model=True, collect=None):
             ctx.stat('receivers=%d' % len(st.deliv))
             if s['sig']:
                 ctx.stat('body sig=' + s['sig'])
+    ctx.stat('connections=%d' % len(net.clients))
+    ids = [int(c['p'].uniqueName[3:]) for c in net.clients if c['p'].uniqueName]
+    if ids:
+        ctx.stat('max-unique-id>=10' if max(ids) >= 10 else 'max-unique-id<10')
+    changed_names, left_holders = set(), False
+    for st in net.steps:
+        if any(e.startswith(('own ', 'unown ')) for e in st.effects):
+            changed_names.update(e.split()[1] for e in st.effects if e.startswith(('own ', 'unown ')))
+        if st.kind == 'disc' and any(o[0] == 'match' and o[1] == st.i for o in ops):
+            left_holders = True
+        if st.kind == 'msg':
+            s = st.sent
+            if s['dest'] in changed_names:
+                ctx.stat('unicast-after-owner-change')
+            if s['dest'] is None and s['t'] == 4 and left_holders:
+                ctx.stat('broadcast-after-a-holder-left')
+            if s['flags'] & ~3:
+                ctx.stat('flags-beyond-0x3')
+            if s['extra']:
+                ctx.stat('unknown-header-field')
+            if s['serial'] >= 2 ** 31 or (s['rs'] or 0) >= 2 ** 31:
+                ctx.stat('serial-or-reply-serial>=2**31')
+            if st.op and st.op[0] == 'addmatch' and 'sender' in st.op[1]:
+                ctx.stat('rule-with-sender-constraint')
+    if any(o[0] == 'split' for o in ops):
+        ctx.stat('history-with-split-read')
     vs = oracle(net)
     for key, what, obs, exp in vs:
         ctx.violation(key, what, inp={'ops': ops}, observed=obs, expected=exp)
@@ -911,6 +1118,9 @@ def random_rule(rng, typed):
         r['path'] = rng.choice(PATHS)
     if rng.random() < 0.1:
         r['destination'] = rng.choice(WELL_KNOWN + [':1.1', ':1.2'])
+    if rng.random() < 0.2:
+        # evaluated against the TRUE sender; a well-known value means the current owner of that name
+        r['sender'] = rng.choice(['@0', '@1', '@2', '@3'] + WELL_KNOWN + [BUS])
     if not r:
         r['interface'] = IFACES[0]
     return r
@@ -941,7 +1151,154 @@ def random_msg(rng, i, nconn, serial, typed):
               body=rng.choice(BODY_KEYS))
     if rng.random() < 0.2:
         md['be'] = True
+    if rng.random() < 0.15:
+        md['foreign'] = random_foreign(rng, t)
+        md['serial'] = serial if rng.random() < 0.7 else 2 ** 31 + serial
+        if rng.random() < 0.3:
+            md['rs'] = rng.choice([2 ** 31, 2 ** 31 + 5, 2 ** 32 - 1])
     return ['msg', i, md]
+
+
+def random_foreign(rng, t):
+    f = {'flags': rng.choice([0, 1, 2, 3, 4, 5, 6, 7, 4, 4])}
+    r = rng.random()
+    if r < 0.25:
+        f['opt'] = rng.sample([n for n in ('path', 'iface', 'member', 'err', 'rs') if n not in REQUIRED[t]],
+                              rng.choice([1, 2]))
+    elif r < 0.45:
+        f['x'] = rng.choice([[[20, 'u', 9]], [[33, 's', 'zz']], [[20, 'u', 9], [200, 's', 'q']]])
+    if rng.random() < 0.3:
+        f['rev'] = True
+    return f
+
+
+def foreign_histories():
+    """A foreign client (reference serializer, not txdbus's `_marshal`): every combination of flags byte x extra
+    header fields x field order for the four types, unicast to client 1 (and, for signals, broadcast to the rule
+    holder client 2); serials and reply serials at and above 2**31; both byte orders."""
+    extras = [{}, {'opt': 'auto'}, {'x': [[20, 'u', 9]]}, {'x': [[33, 's', 'zz'], [20, 'u', 7]], 'opt': 'auto'}]
+    optional = {1: ['err'], 2: ['path', 'member'], 3: ['iface', 'path'], 4: ['err', 'rs']}
+    for t in (1, 2, 3, 4):
+        for flags in (0, 3, 4, 7):
+            for k, ex in enumerate(extras):
+                for rev in (False, True):
+                    ops, serial = setup3(3)
+                    ops.append(['match', 2, serial, {'interface': 'org.ex.I'}, 0])
+                    f = {'flags': flags, 'rev': rev}
+                    if ex.get('opt'):
+                        f['opt'] = optional[t]
+                    if ex.get('x'):
+                        f['x'] = ex['x']
+                    big = (flags == 4 and k == 0)
+                    md = dict(t=t, serial=(2 ** 32 - 1 - t) if big else serial + 1, dest='@1', forged='@2',
+                              path='/x', iface='org.ex.I', member='Foo', err='org.ex.Error',
+                              rs=(2 ** 31 + 5) if big else 3, body='s', be=(rev and k == 2), foreign=f)
+                    ops.append(['msg', 0, md])
+                    if t == 4:
+                        md2 = dict(md, dest=None, serial=(2 ** 31) if big else serial + 2)
+                        ops.append(['msg', 0, md2])
+                    yield ops
+
+
+# --- every placement of connects / disconnects / name operations among messages, small scenarios
+LIFE_KINDS = ['call-other', 'signal-bcast', 'return-name', 'req', 'rel', 'disc']
+
+
+def lifecycle_alphabet(nclients=2):
+    return [(i, k) for i in range(nclients) for k in LIFE_KINDS] + [(None, 'connect-hello')]
+
+
+def lifecycle_history(seq, nclients=2):
+    """`nclients` clients said Hello, client 1 holds a rule on org.ex.I; then the operations of `seq`: a call to the
+    other client, a broadcast signal, a method return to org.ex.A, RequestName / ReleaseName of org.ex.A, a
+    disconnect, a new connection saying Hello (which then is the 'other' for nobody but a receiver by name)."""
+    ops, serial = setup3(nclients)
+    ops.append(['match', 1, serial, {'interface': 'org.ex.I'}, 0])
+    serial += 1
+    for i, k in seq:
+        if k == 'connect-hello':
+            n = sum(1 for o in ops if o[0] == 'connect')
+            ops.append(['connect'])
+            ops.append(['hello', n, serial])
+        elif k == 'call-other':
+            ops.append(['msg', i, dict(t=1, serial=serial, dest='@%d' % ((i + 1) % nclients), forged='org.ex.A', path='/x',
+                                       iface='org.ex.I', member='Foo', body='s')])
+        elif k == 'signal-bcast':
+            ops.append(['msg', i, dict(t=4, serial=serial, dest=None, path='/x', iface='org.ex.I', member='Foo',
+                                       body='none')])
+        elif k == 'return-name':
+            ops.append(['msg', i, dict(t=2, serial=serial, dest='org.ex.A', rs=7, body='s')])
+        elif k == 'req':
+            ops.append(['req', i, serial, 'org.ex.A', 0, 0])
+        elif k == 'rel':
+            ops.append(['rel', i, serial, 'org.ex.A', 0])
+        elif k == 'disc':
+            ops.append(['disc', i])
+        serial += 1
+    return ops
+
+
+def lifecycle_histories(maxlen):
+    alpha = lifecycle_alphabet()
+    for ln in range(1, maxlen + 1):
+        for seq in itertools.product(alpha, repeat=ln):
+            yield lifecycle_history(seq)
+
+
+# --- two-digit unique names
+def many_connections_histories():
+    """13 connections over time (never more than 4 alive), so that the names :1.1 and :1.10 ... :1.13 exist; then
+    unicasts to :1.1 (gone), :1.10, :1.11, :1.12, :1.13, :1.1x-looking strings, and a broadcast."""
+    for variant in range(6):
+        ops, serial = [], 1
+        keep = {0: [9, 10, 11, 12], 1: [0, 9, 10, 12], 2: [1, 10, 11, 12], 3: [9, 11, 12], 4: [0, 1, 11, 12],
+                5: [9, 10, 11, 12]}[variant]
+        for k in range(13):
+            ops.append(['connect'])
+            if variant == 5 and k % 2:
+                # named by a first message that is not Hello (a signal)
+                ops.append(['msg', k, dict(t=4, serial=serial, dest=None, path='/y', iface='org.ex.J', member='Bar',
+                                           body='none')])
+            else:
+                ops.append(['hello', k, serial])
+            serial += 1
+            if k == 11:
+                ops.append(['match', 11, serial, {'interface': 'org.ex.I'}, 0])
+                serial += 1
+            if k not in keep and k < 9:
+                ops.append(['disc', k])
+        for k in range(9, 13):
+            if k not in keep:
+                ops.append(['disc', k])
+        src = keep[-1]
+        for dest in ['@0', '@9', '@10', '@11', '@12', ':1.1', ':1.10', ':1.13', ':1.14', ':1.100', ':1.01']:
+            ops.append(['msg', src, dict(t=rng_free_type(serial), serial=serial, dest=dest, forged='@9', path='/x',
+                                         iface='org.ex.I', member='Foo', rs=3, err='org.ex.Error', body='s')])
+            serial += 1
+        ops.append(['msg', src, dict(t=4, serial=serial, dest=None, path='/x', iface='org.ex.I', member='Foo', body='s')])
+        yield ops
+
+
+def rng_free_type(serial):
+    return (1, 2, 3, 4)[serial % 4]
+
+
+# --- partial reads interleaved between clients
+def split_read_histories():
+    for cut in (1, 7, 15, 16, 17, 40, 10 ** 6):
+        for kind_i, kind_j in (('call', 'signal'), ('signal', 'call'), ('call', 'buscall')):
+            ops, serial = setup3(3)
+            ops.append(['match', 2, serial, {'interface': 'org.ex.I'}, 0])
+
+            def mk(kind, i, ser):
+                if kind == 'call':
+                    return ['msg', i, dict(t=1, serial=ser, dest='@2', path='/x', iface='org.ex.I', member='Foo', body='asv')]
+                if kind == 'signal':
+                    return ['msg', i, dict(t=4, serial=ser, dest=None, path='/x', iface='org.ex.I', member='Foo', body='s')]
+                return ['bus', i, ser, 'GetNameOwner', 'org.ex.A', 0]
+            ops.append(['split', 0, mk(kind_i, 0, serial + 1), cut, 1, mk(kind_j, 1, serial + 2)])
+            ops.append(['msg', 0, dict(t=2, serial=serial + 3, dest='@1', rs=9, body='none')])
+            yield ops
 
 
 def random_history(rng, length):
@@ -995,6 +1352,11 @@ def random_history(rng, length):
             ops.append(['burst', i, sub])
         elif r < 0.57:
             ops.append(['match', i, serial, 'nonsense', 0])
+        elif r < 0.60 and len(alive) > 1:
+            j = rng.choice([x for x in alive if x != i])
+            ops.append(['split', i, random_msg(rng, i, nconn, serial, typed), rng.choice([1, 8, 16, 24, 50]),
+                        j, random_msg(rng, j, nconn, serial + 1, typed)])
+            serial += 1
         else:
             ops.append(random_msg(rng, i, nconn, serial, typed))
         serial += 1
@@ -1140,19 +1502,37 @@ def run(ctx):
         go('corpus-and-exemplars', ops)
 
     # every arrival order of <= 3 messages among <= 3 clients
-    plans = [(2, 3), (3, 3)]
+    plans = [(3, 3)] if (ctx.tier == 'quick' and not ctx.widen) else [(2, 3), (3, 3)]
     for n, ln in plans:
         for ops in interleavings(n, ln):
             go('interleavings-exhaustive', ops)
     for ops in bus_name_holder_histories():
         go('interleavings-exhaustive', ops)
+    # connects, disconnects and name operations at every position (2 clients + late joiners, 13 operation kinds):
+    # all sequences of length <= 2 always; length 3 completely in the thorough tier, sampled in the quick tier
+    if ctx.tier == 'quick' and not ctx.widen:
+        for ops in lifecycle_histories(2):
+            go('interleavings-exhaustive', ops)
+        alpha = lifecycle_alphabet()
+        for _ in range(300):
+            go('interleavings-exhaustive', lifecycle_history([ctx.rng.choice(alpha) for _ in range(3)]))
+    else:
+        for ops in lifecycle_histories(3):
+            go('interleavings-exhaustive', ops)
+    for ops in many_connections_histories():
+        go('interleavings-exhaustive', ops)
+    for ops in split_read_histories():
+        go('interleavings-exhaustive', ops)
     ctx.exhaustive = True
+
+    for ops in foreign_histories():
+        go('foreign-messages', ops)
     ctx.note('interleavings enumerated: %s (clients, max messages) over %d message kinds' % (plans, len(KINDS)))
 
     for ops in body_histories():
         go('bodies-reencode', ops)
 
-    n = ctx.scale(quick=400, thorough=9000)
+    n = ctx.scale(quick=330, thorough=9000)
     for k in range(n):
         ln = ctx.rng.choice([8, 12, 20, 30, 45, 60])
         go('histories-random', random_history(ctx.rng, ln))
